@@ -14,6 +14,8 @@ import (
 	"github.com/sarchlab/akita/v5/tracing"
 
 	"verif/props/emem"
+	"verif/props/enoc"
+	"verif/props/evm"
 	"verif/props/tracelog"
 	"verif/sim/kit"
 )
@@ -21,6 +23,8 @@ import (
 // C06Case is a hierarchy configuration plus the choice of cut points.
 type C06Case struct {
 	Cfg     emem.Config `json:"cfg"`
+	VM      *evm.Cfg    `json:"vm,omitempty"`   // a translation stack instead of the memory hierarchy
+	Net     *enoc.Net   `json:"net,omitempty"`  // a switched network instead
 	Cuts    []uint64    `json:"cuts,omitempty"` // explicit cut times (replay); empty = chosen from the reference run
 	MaxCuts int         `json:"max_cuts"`
 	Pick    uint64      `json:"pick"`
@@ -194,11 +198,63 @@ func firstTraceDiff(a, b []string) string {
 	return fmt.Sprintf("%d events vs reference %d", len(a), len(b))
 }
 
+// build constructs the simulation the case describes.
+func (c *C06Case) build(env *kit.Env, kick bool) *simRun {
+	switch {
+	case c.VM != nil:
+		return newSimVM(c.VM, env, kick)
+	case c.Net != nil:
+		return newSimNet(c.Net, env, kick)
+	}
+
+	return newSim(&c.Cfg, env, kick)
+}
+
 func genC06(r *kit.Rand, tier kit.Tier) C06Case {
 	c := C06Case{MaxCuts: 8, Pick: r.Uint64()}
 
 	if tier == kit.Thorough {
 		c.MaxCuts = r.PickInt(12, 40, 400)
+	}
+
+	switch r.Intn(5) {
+	case 0:
+		v := evm.Gen(r, tier, r.Chance(1, 3))
+		v.UseAT, v.Steps = false, nil
+		v.EventCap = 60000
+
+		for i := range v.Reqs {
+			if len(v.Reqs[i].Ops) > 25 {
+				v.Reqs[i].Ops = v.Reqs[i].Ops[:25]
+			}
+		}
+
+		if v.MMUCache && len(v.TLBs) == 0 {
+			v.Reqs = v.Reqs[:1]
+		}
+
+		c.VM = &v
+
+		return c
+	case 1:
+		n := enoc.GenNet(r, kit.Quick)
+		n.EventCap = 60000
+
+		for i := range n.Devs {
+			n.Devs[i].Stalls = nil
+		}
+
+		for i := range n.Msgs {
+			n.Msgs[i].At = 0
+		}
+
+		if len(n.Msgs) > 40 {
+			n.Msgs = n.Msgs[:40]
+		}
+
+		c.Net = &n
+
+		return c
 	}
 
 	c.Cfg = emem.GenConfig(r, tier, emem.GenOpts{OnlyCaches: -1, NoStub: true, MaxOps: 25})
@@ -210,7 +266,7 @@ func genC06(r *kit.Rand, tier kit.Tier) C06Case {
 func execC06(c C06Case, env *kit.Env) kit.Outcome {
 	var out kit.Outcome
 
-	ref := newSim(&c.Cfg, env, true)
+	ref := c.build(env, true)
 	ref.guarded(func() { _ = ref.eng.Run() })
 
 	if ref.capHit {
@@ -269,7 +325,7 @@ func execC06(c C06Case, env *kit.Env) kit.Outcome {
 			inflightCuts++
 		}
 
-		a := newSim(&c.Cfg, env, true)
+		a := c.build(env, true)
 		a.guarded(func() { _ = a.eng.RunUntil(timing.VTimeInPicoSec(t)) })
 
 		ckpt := filepath.Join(env.Scratch, "cut.akitackpt")
@@ -294,7 +350,7 @@ func execC06(c C06Case, env *kit.Env) kit.Outcome {
 			return out
 		}
 
-		b := newSim(&c.Cfg, env, false)
+		b := c.build(env, false)
 		if err := b.sim.LoadCheckpoint(ckpt, buildID); err != nil {
 			b.close()
 			out.Violation = kit.Violate("checkpoint", "C06:load-failed", "LoadCheckpoint of the archive saved at t=%d into the rebuilt simulation: %v", t, err)
@@ -313,6 +369,11 @@ func execC06(c C06Case, env *kit.Env) kit.Outcome {
 		}
 
 		if !bytes.Equal(bFinal, refFinal) {
+			if d := os.Getenv("VERIF_C06_DUMP"); d != "" {
+				_ = os.WriteFile(filepath.Join(d, "ref.akitackpt"), refFinal, 0o644)
+				_ = os.WriteFile(filepath.Join(d, "restored.akitackpt"), bFinal, 0o644)
+			}
+
 			out.Violation = kit.Violate("restore-invisible", "C06:resumed-final-state-differs", "cut at t=%d: final state after restore differs from the uninterrupted run: %s", t, archiveDiff(bFinal, refFinal))
 			return out
 		}
@@ -328,9 +389,22 @@ func execC06(c C06Case, env *kit.Env) kit.Outcome {
 	out.Probe("cuts-with-events-still-pending", inflightCuts)
 	out.Probe("distinct-event-times-in-reference", len(times))
 	out.Probe("all-event-times-cut", btoi(len(cuts) == len(times)))
-	out.Shape = fmt.Sprintf("%s|%d|%v", emem.Describe(&c.Cfg), len(ref.trace), cuts)
+	desc := emem.Describe(&c.Cfg)
+
+	switch {
+	case c.VM != nil:
+		desc = fmt.Sprintf("vm-stack tlbs=%d mmucache=%v gmmu=%v auto=%v reqs=%d", len(c.VM.TLBs), c.VM.MMUCache, c.VM.GMMU, c.VM.AutoAlloc, len(c.VM.Reqs))
+		out.Probe("assembly:vm-stack", 1)
+	case c.Net != nil:
+		desc = enoc.Describe(c.Net)
+		out.Probe("assembly:network", 1)
+	default:
+		out.Probe("assembly:memory-hierarchy", 1)
+	}
+
+	out.Shape = fmt.Sprintf("%s|%d|%v", desc, len(ref.trace), cuts)
 	out.NonTrivial = inflightCuts > 0
-	out.Sample = map[string]any{"assembly": emem.Describe(&c.Cfg), "events": len(ref.trace), "cuts": cuts}
+	out.Sample = map[string]any{"assembly": desc, "events": len(ref.trace), "cuts": cuts}
 
 	return out
 }
@@ -360,11 +434,11 @@ func equalStrings(a, b []string) bool {
 func init() {
 	kit.Register(kit.Spec[C06Case]{
 		ID: "C06", Level: "fault_enumeration",
-		Rule: "random memory hierarchies (E-mem generator: caches of all four kinds, ROB, ideal / banked / DRAM controllers, interleaved lowers, mixed clocks) built on a real simulation.Simulation with checkpointable scripted requesters (tick-counted stalls, no harness events); " +
+		Rule: "three out of five runs: random memory hierarchies (E-mem generator: caches of all four kinds, ROB, ideal / banked / DRAM controllers, interleaved lowers, mixed clocks) built on a real simulation.Simulation with checkpointable scripted requesters (tick-counted stalls, no harness events); one in five: a translation stack (TLB levels, MMU cache, GMMU, MMU, registered page table) with checkpointable translation requesters; one in five: a switched network (generic, mesh, PCIe, NVLink connectors) with checkpointable devices; " +
 			"the reference run records every distinct event time; for each chosen cut t (quick: first, last and up to 8 sampled; thorough: up to 400, all when fewer) simulation A runs to t, saves, is continued (must still equal the reference) and is thrown away; simulation B is rebuilt, loads the archive and runs: " +
 			"its handled-event trace (time, handler, type, payload incl. event ID) must equal the reference suffix and its final archive must be byte-equal to the reference's; distinct = hash of (assembly, events, cuts); non-trivial = at least one cut with events still pending",
-		Assumptions: []string{"tracing off (no StartTracing), as documented for checkpoints", "final state is compared through the canonical archive (C07 checks that archives are canonical)", "VM stacks, networks and the data mover are not yet part of this generator"},
-		Real:        []string{"simulation.Simulation (SaveCheckpoint/LoadCheckpoint, archive)", "timing.SerialEngine + event codec", "timing ID generator checkpoint", "modeling.Component checkpoint", "messaging.Port checkpoint", "mem.Storage checkpoint", "caches, ROB, memory controllers, direct connections"},
+		Assumptions: []string{"tracing off (no StartTracing), as documented for checkpoints", "final state is compared through the canonical archive (C07 checks that archives are canonical)", "VM stacks run without address translator and control script, networks without send times and receiver stalls (those use harness events that are not checkpointable); the data mover is not part of this generator"},
+		Real:        []string{"simulation.Simulation (SaveCheckpoint/LoadCheckpoint, archive)", "timing.SerialEngine + event codec", "timing ID generator checkpoint", "modeling.Component checkpoint", "messaging.Port checkpoint", "mem.Storage checkpoint", "caches, ROB, memory controllers, direct connections", "TLB, MMU cache, GMMU, MMU, page table", "switches, endpoints"},
 		Stubs:       []string{"checkpointable scripted requesters (modeling.Component with harness middleware)"},
 		FaultKinds:  []string{"crash-restart(checkpoint-cut)"},
 		Quick:       kit.Budget{Runs: 600, WallS: 110, CaseS: 200},
@@ -372,8 +446,26 @@ func init() {
 		Gen:         genC06, Exec: execC06,
 		Shrink: func(c C06Case) []C06Case {
 			var out []C06Case
-			for _, q := range emem.ShrinkConfig(c.Cfg) {
-				out = append(out, C06Case{Cfg: q, MaxCuts: c.MaxCuts, Pick: c.Pick})
+
+			switch {
+			case c.VM != nil:
+				for _, q := range evm.ShrinkCfg(*c.VM) {
+					q := q
+					if q.UseAT || len(q.Steps) > 0 {
+						continue
+					}
+
+					out = append(out, C06Case{VM: &q, MaxCuts: c.MaxCuts, Pick: c.Pick})
+				}
+			case c.Net != nil:
+				for _, q := range enoc.ShrinkNet(*c.Net) {
+					q := q
+					out = append(out, C06Case{Net: &q, MaxCuts: c.MaxCuts, Pick: c.Pick})
+				}
+			default:
+				for _, q := range emem.ShrinkConfig(c.Cfg) {
+					out = append(out, C06Case{Cfg: q, MaxCuts: c.MaxCuts, Pick: c.Pick})
+				}
 			}
 
 			return out
